@@ -1,12 +1,409 @@
 /-
-C08 — the SQLite store behaves as a keyed collection over any operation history (placeholder; theorems follow).
+C08 — the SQLite store behaves as a keyed collection over any operation history.
+
+All statements are about `runOp db mem op fault : Result` of `PgVerif.Model.Store`; the fault-free call is `fault = none`.
+The program logic and the fault-free `exec` lemmas are in `PgVerif.Lemmas.Store`.
 -/
 import PgVerif.Model.Store
+import PgVerif.Lemmas.Store
+import Mathlib.Tactic
+
+set_option linter.unusedSimpArgs false
 
 namespace PgVerif.C08
-open PgVerif.Model.Store
+open PgVerif.Model.Store PgVerif.StoreL
 
 /-- the empty store is well formed -/
 theorem empty_wellFormed : Db.empty.wellFormed = true := by decide
+
+/-! ### referential integrity as a proposition, and its preservation by every single statement -/
+
+/-- `Db.wellFormed` as a proposition -/
+structure WF (db : Db) : Prop where
+  adsProps : ∀ r ∈ db.adsProps, r.1 ∈ db.ads ∧ r.2.1 ∈ db.adsTypes.map (·.1)
+  matProps : ∀ r ∈ db.matProps, r.1 ∈ db.mats ∧ r.2.1 ∈ db.matTypes.map (·.1)
+  isos : ∀ r ∈ db.isos, r.2.1 ∈ db.isoTypes.map (·.1) ∧ r.2.2.1 ∈ db.mats ∧ r.2.2.2.1 ∈ db.ads
+  isoProps : ∀ r ∈ db.isoProps, r.1 ∈ db.isos.map (·.1)
+  isoData : ∀ r ∈ db.isoData, r.1 ∈ db.isos.map (·.1)
+
+lemma any_fst_eq {α β : Type} [BEq α] [LawfulBEq α] (l : List (α × β)) (t : α) :
+    (l.any (·.1 == t)) = true ↔ t ∈ l.map (·.1) := by
+  simp only [List.any_eq_true, beq_iff_eq, List.mem_map]
+
+lemma mem_map_fst_filter_ne {β : Type} (l : List (String × β)) (t x : String) :
+    x ∈ (l.filter (fun r => r.1 != t)).map (·.1) ↔ x ∈ l.map (·.1) ∧ x ≠ t := by
+  simp only [List.mem_map, List.mem_filter, bne_iff_ne]
+  constructor
+  · rintro ⟨r, ⟨h1, h2⟩, rfl⟩; exact ⟨⟨r, h1, rfl⟩, h2⟩
+  · rintro ⟨⟨r, h1, rfl⟩, h2⟩; exact ⟨r, ⟨h1, h2⟩, rfl⟩
+
+lemma wf_iff (db : Db) : db.wellFormed = true ↔ WF db := by
+  constructor
+  · intro h
+    simp only [Db.wellFormed, Bool.and_eq_true, List.all_eq_true, any_fst_eq, List.contains_iff_mem] at h
+    obtain ⟨⟨⟨⟨h1, h2⟩, h3⟩, h4⟩, h5⟩ := h
+    exact ⟨h1, h2, fun r hr => by have := h3 r hr; tauto, h4, h5⟩
+  · rintro ⟨h1, h2, h3, h4, h5⟩
+    simp only [Db.wellFormed, Bool.and_eq_true, List.all_eq_true, any_fst_eq, List.contains_iff_mem]
+    exact ⟨⟨⟨⟨h1, h2⟩, fun r hr => by have := h3 r hr; tauto⟩, h4⟩, h5⟩
+
+macro "wf_fin" h:ident : tactic => `(tactic|
+  (obtain ⟨h1, h2, h3, h4, h5⟩ := $h
+   constructor <;> simp only [List.map_append, List.mem_append, List.map_cons, List.map_nil, List.mem_singleton, mem_map_fst_filter_ne] <;> grind))
+
+lemma wf_insAds (name : Option String) (d : Db) (h : WF d) :
+    okP WF anyErr (insAds name d) := by
+  unfold insAds insName
+  cases name with
+  | none => trivial
+  | some n =>
+    simp only
+    split_ifs
+    · trivial
+    · obtain ⟨h1, h2, h3, h4, h5⟩ := h
+      constructor <;> simp only <;> grind
+
+
+lemma wf_insMat (name : Option String) (d : Db) (h : WF d) :
+    okP WF anyErr (insMat name d) := by
+  unfold insMat insName
+  cases name with
+  | none => trivial
+  | some n =>
+    simp only
+    split_ifs
+    · trivial
+    · wf_fin h
+
+lemma wf_insAdsProp (a t : String) (v : Option String) (d : Db) (h : WF d) :
+    okP WF anyErr (insAdsProp a t v d) := by
+  unfold insAdsProp
+  cases v with
+  | none => trivial
+  | some v =>
+    simp only
+    split_ifs with c
+    · simp only [Bool.and_eq_true, any_fst_eq, List.contains_iff_mem] at c
+      wf_fin h
+    · trivial
+
+lemma wf_insMatProp (a t : String) (v : Option String) (d : Db) (h : WF d) :
+    okP WF anyErr (insMatProp a t v d) := by
+  unfold insMatProp
+  cases v with
+  | none => trivial
+  | some v =>
+    simp only
+    split_ifs with c
+    · simp only [Bool.and_eq_true, any_fst_eq, List.contains_iff_mem] at c
+      wf_fin h
+    · trivial
+
+lemma wf_insAdsType (t : Option String) (u de : String) (d : Db) (h : WF d) :
+    okP WF anyErr (insType3 (·.adsTypes) (fun d l => { d with adsTypes := l }) t u de d) := by
+  unfold insType3
+  cases t with
+  | none => trivial
+  | some t =>
+    simp only
+    split_ifs
+    · trivial
+    · wf_fin h
+
+lemma wf_insMatType (t : Option String) (u de : String) (d : Db) (h : WF d) :
+    okP WF anyErr (insType3 (·.matTypes) (fun d l => { d with matTypes := l }) t u de d) := by
+  unfold insType3
+  cases t with
+  | none => trivial
+  | some t =>
+    simp only
+    split_ifs
+    · trivial
+    · wf_fin h
+
+lemma wf_updAdsType (t : Option String) (u de : String) (d : Db) (h : WF d) :
+    okP WF anyErr (updType3 (·.adsTypes) (fun d l => { d with adsTypes := l }) t u de d) := by
+  unfold updType3
+  cases t with
+  | none => exact h
+  | some t =>
+    simp only
+    wf_fin h
+
+
+lemma wf_updMatType (t : Option String) (u de : String) (d : Db) (h : WF d) :
+    okP WF anyErr (updType3 (·.matTypes) (fun d l => { d with matTypes := l }) t u de d) := by
+  unfold updType3
+  cases t with
+  | none => exact h
+  | some t =>
+    simp only
+    wf_fin h
+
+lemma wf_insIsoType (t : Option String) (de : String) (d : Db) (h : WF d) :
+    okP WF anyErr (insIsoType t de d) := by
+  unfold insIsoType
+  cases t with
+  | none => trivial
+  | some t =>
+    simp only
+    split_ifs
+    · trivial
+    · wf_fin h
+
+lemma wf_updIsoType (t : Option String) (de : String) (d : Db) (h : WF d) :
+    okP WF anyErr (updIsoType t de d) := by
+  unfold updIsoType
+  cases t with
+  | none => exact h
+  | some t =>
+    simp only
+    wf_fin h
+
+lemma wf_delAds (a : String) (d : Db) (h : WF d) :
+    okP WF anyErr (delAds a d) := by
+  unfold delAds
+  split_ifs with c
+  · trivial
+  · simp only [Bool.or_eq_true, any_fst_eq, List.any_eq_true, beq_iff_eq, not_or, not_exists, not_and] at c
+    wf_fin h
+
+lemma wf_delMat (a : String) (d : Db) (h : WF d) :
+    okP WF anyErr (delMat a d) := by
+  unfold delMat
+  split_ifs with c
+  · trivial
+  · simp only [Bool.or_eq_true, any_fst_eq, List.any_eq_true, beq_iff_eq, not_or, not_exists, not_and] at c
+    wf_fin h
+
+lemma wf_delAdsType (t : String) (d : Db) (h : WF d) :
+    okP WF anyErr (delAdsType t d) := by
+  unfold delAdsType
+  split_ifs with c
+  · trivial
+  · simp only [List.any_eq_true, beq_iff_eq, not_exists, not_and] at c
+    wf_fin h
+
+lemma wf_delMatType (t : String) (d : Db) (h : WF d) :
+    okP WF anyErr (delMatType t d) := by
+  unfold delMatType
+  split_ifs with c
+  · trivial
+  · simp only [List.any_eq_true, beq_iff_eq, not_exists, not_and] at c
+    wf_fin h
+
+lemma wf_delIsoType (t : String) (d : Db) (h : WF d) :
+    okP WF anyErr (delIsoType t d) := by
+  unfold delIsoType
+  split_ifs with c
+  · trivial
+  · simp only [List.any_eq_true, beq_iff_eq, not_exists, not_and] at c
+    wf_fin h
+
+lemma wf_insIso (id ty : String) (mat ads temp : Option String) (d : Db) (h : WF d) :
+    okP WF anyErr (insIso id ty mat ads temp d) := by
+  unfold insIso
+  cases mat <;> cases ads <;> cases temp <;> simp only [] <;> try trivial
+  split_ifs with c1 c2
+  · trivial
+  · simp only [Bool.and_eq_true, any_fst_eq, List.contains_iff_mem] at c2
+    wf_fin h
+  · trivial
+
+lemma wf_insIsoProp (id t : String) (v : PVal) (d : Db) (h : WF d) :
+    okP WF anyErr (insIsoProp id t v d) := by
+  unfold insIsoProp
+  cases v with
+  | unsupported => trivial
+  | null => trivial
+  | val s =>
+    simp only
+    split_ifs with c
+    · simp only [any_fst_eq] at c
+      wf_fin h
+    · trivial
+
+lemma wf_insIsoData (id t dt da : String) (d : Db) (h : WF d) :
+    okP WF anyErr (insIsoData id t dt da d) := by
+  unfold insIsoData
+  split_ifs with c
+  · simp only [any_fst_eq] at c
+    wf_fin h
+  · trivial
+
+lemma wf_filterAdsProps (nm : String) (d : Db) (h : WF d) :
+    okP WF anyErr (Except.ok { d with adsProps := d.adsProps.filter (·.1 != nm) } : Except SqlErr Db) := by
+  rw [okP_ok]
+  wf_fin h
+
+lemma wf_filterMatProps (nm : String) (d : Db) (h : WF d) :
+    okP WF anyErr (Except.ok { d with matProps := d.matProps.filter (·.1 != nm) } : Except SqlErr Db) := by
+  rw [okP_ok]
+  wf_fin h
+
+
+/-! ### every fault-free operation preserves well-formedness -/
+
+macro "wf_disch" : tactic => `(tactic|
+  first
+    | exact wf_insAds _ | exact wf_insMat _ | exact wf_insAdsProp _ _ _ | exact wf_insMatProp _ _ _
+    | exact wf_insAdsType _ _ _ | exact wf_insMatType _ _ _ | exact wf_updAdsType _ _ _ | exact wf_updMatType _ _ _
+    | exact wf_insIsoType _ _ | exact wf_updIsoType _ _ | exact wf_delAds _ | exact wf_delMat _
+    | exact wf_delAdsType _ | exact wf_delMatType _ | exact wf_delIsoType _ | exact wf_insIso _ _ _ _ _
+    | exact wf_insIsoProp _ _ _ | exact wf_insIsoData _ _ _ _ | exact wf_filterAdsProps _ | exact wf_filterMatProps _)
+
+
+lemma wfRel_adsToDb (name props ai ow) : Inv anyErr WF (adsToDb name props ai ow) := by
+  unfold adsToDb
+  sql_inv [wf_disch] [trivial]
+
+lemma wfRel_matToDb (name props ai ow) : Inv anyErr WF (matToDb name props ai ow) := by
+  unfold matToDb
+  sql_inv [wf_disch] [trivial]
+
+lemma wfRel_adsDelete (name) : Inv anyErr WF (adsDelete name) := by
+  unfold adsDelete
+  sql_inv [wf_disch] [trivial]
+
+lemma wfRel_matDelete (name) : Inv anyErr WF (matDelete name) := by
+  unfold matDelete
+  sql_inv [wf_disch] [trivial]
+
+lemma wfRel_typeToDb (tb t u d o) : Inv anyErr WF (typeToDb tb t u d o) := by
+  unfold typeToDb
+  cases o <;> sql_inv [wf_disch] [trivial]
+
+lemma wfRel_typeDelete (tb t) : Inv anyErr WF (typeDelete tb t) := by
+  unfold typeDelete
+  sql_inv [wf_disch] [trivial]
+
+
+lemma wfRel_isoToDb (i am aa) : Inv anyErr WF (isoToDb i am aa) := by
+  unfold isoToDb
+  repeat (first
+    | with_reducible exact Inv.pure _
+    | with_reducible exact Inv.readStmt _ | with_reducible exact Inv.modifyMem _
+    | with_reducible exact wfRel_adsToDb _ _ _ _ | with_reducible exact wfRel_matToDb _ _ _ _
+    | with_reducible refine Inv.writeStmt _ (by wf_disch)
+    | with_reducible apply Inv.bind | with_reducible apply Inv.ite | with_reducible apply Inv.forIn
+    | with_reducible intro _
+    | (split)
+    | dsimp only)
+
+/-- the fault-free `isoDelete`, computed -/
+lemma exec_isoDelete_none (id : String) (db : Db) (mem : Mem) (n : Nat) :
+    exec (isoDelete id) ⟨db, mem, n, none⟩ =
+      if db.isos.any (·.1 == id) then
+        (.ok (), ⟨{ db with isoData := db.isoData.filter (·.1 != id), isoProps := db.isoProps.filter (·.1 != id),
+                            isos := db.isos.filter (·.1 != id) }, mem, n + 4, none⟩)
+      else (.error .integrity, ⟨db, mem, n + 1, none⟩) := by
+  unfold isoDelete
+  by_cases h : db.isos.any (·.1 == id) = true
+  · simp [exec_bind, exec_writeStmt_none, h]
+  · simp [exec_bind, exec_writeStmt_none, h]
+
+lemma wf_isoDelete_result (id : String) (d : Db) (h : WF d) :
+    WF { d with isoData := d.isoData.filter (·.1 != id), isoProps := d.isoProps.filter (·.1 != id),
+                isos := d.isos.filter (·.1 != id) } := by
+  obtain ⟨h1, h2, h3, h4, h5⟩ := h
+  constructor <;> simp only [mem_map_fst_filter_ne, List.mem_filter, bne_iff_ne] <;> grind
+
+/-- **every fault-free operation body that returns normally maps a well-formed working copy to a well-formed one** -/
+theorem wf_opBody (op : Op) (db : Db) (mem : Mem) (n : Nat) (h : WF db)
+    (hok : (exec op.body ⟨db, mem, n, none⟩).1 = .ok ()) : WF (exec op.body ⟨db, mem, n, none⟩).2.db := by
+  have key : ∀ {p : Sql Unit}, Inv anyErr WF p → (exec p ⟨db, mem, n, none⟩).1 = .ok () →
+      WF (exec p ⟨db, mem, n, none⟩).2.db := by
+    intro p hp hk
+    rcases hp ⟨db, mem, n, none⟩ rfl h with ⟨e, _, he⟩ | ⟨_, _, _, h2⟩
+    · rw [hk] at he; cases he
+    · exact h2
+  cases op with
+  | adsToDb n p a o => exact key (wfRel_adsToDb n p a o) hok
+  | matToDb n p a o => exact key (wfRel_matToDb n p a o) hok
+  | adsDelete n => exact key (wfRel_adsDelete n) hok
+  | matDelete n => exact key (wfRel_matDelete n) hok
+  | typeToDb tb t u d o => exact key (wfRel_typeToDb tb t u d o) hok
+  | typeDelete tb t => exact key (wfRel_typeDelete tb t) hok
+  | isoToDb i am aa => exact key (wfRel_isoToDb i am aa) hok
+  | isoDelete id =>
+    simp only [Op.body] at hok ⊢
+    rw [exec_isoDelete_none] at hok ⊢
+    split_ifs at hok ⊢ with c
+    · exact wf_isoDelete_result id db h
+
+
+
+/-! ### general theorems -/
+
+/-- A refused (or otherwise unsuccessful) fault-free call changes nothing. -/
+theorem refused_changes_nothing (db : Db) (mem : Mem) (op : Op) :
+    (runOp db mem op none).out ≠ .ok → (runOp db mem op none).db = db := by
+  obtain ⟨h1, h2⟩ := runOp_none db mem op
+  rw [h1, h2]
+  rcases (exec op.body ⟨db, mem, 1, none⟩).1 with e | a
+  · intro _; rfl
+  · intro h; exact absurd rfl h
+
+/-- The result for the target file (committed content and outcome) is a function of that file's content and of the
+operation only: it does not depend on the process-global lists, i.e. on uploads earlier in the session; other
+database files are not even an input of `runOp`. -/
+theorem outcome_depends_only_on_file (db : Db) (mem₁ mem₂ : Mem) (op : Op) (f : Option (Nat × FaultKind)) :
+    (runOp db mem₁ op f).db = (runOp db mem₂ op f).db ∧ (runOp db mem₁ op f).out = (runOp db mem₂ op f).out := by
+  rw [runOp_eq, runOp_eq]
+  rcases rel_prog (fun b => memR_stmt b) memR_modifyMem op ⟨db, mem₁, 0, f⟩ ⟨db, mem₂, 0, f⟩ ⟨rfl, rfl, rfl⟩ with
+    ⟨_, h, _⟩ | ⟨h1, h2, h3, _⟩
+  · exact h.elim
+  · have := finish_congr db mem₁ mem₂ f _ _ h1 h2 h3
+    exact ⟨this.1, this.2.1⟩
+
+/-! ### no orphans, ever -/
+
+/-- the fault-free call preserves referential integrity -/
+theorem wellFormed_preserved_none (db : Db) (mem : Mem) (op : Op) (h : db.wellFormed = true) :
+    (runOp db mem op none).db.wellFormed = true := by
+  rw [(runOp_none db mem op).2]
+  rcases hr : (exec op.body ⟨db, mem, 1, none⟩).1 with e | a
+  · exact h
+  · exact (wf_iff _).2 (wf_opBody op db mem 1 ((wf_iff _).1 h) hr)
+
+/-- **Referential integrity is preserved by every operation under every fault** (isotherms reference existing
+material / adsorbate / type; property and data rows reference existing owners). -/
+theorem wellFormed_preserved (db : Db) (mem : Mem) (op : Op) (fault : Option (Nat × FaultKind))
+    (h : db.wellFormed = true) : (runOp db mem op fault).db.wellFormed = true := by
+  rcases fault with _ | ⟨k, kind⟩
+  · exact wellFormed_preserved_none db mem op h
+  · rcases runOp_atomic db mem op k kind with h' | h'
+    · rw [h']; exact h
+    · rw [h']; exact wellFormed_preserved_none db mem op h
+
+/-- one step of a history: the call sees the committed file and the current process-global lists -/
+def step (s : Db × Mem) (c : Op × Option (Nat × FaultKind)) : Db × Mem :=
+  ((runOp s.1 s.2 c.1 c.2).db, (runOp s.1 s.2 c.1 c.2).mem)
+
+/-- **History lifting**: any sequence of operations, each with any fault, from a well-formed file leaves a well-formed file. -/
+theorem history_wellFormed (h : List (Op × Option (Nat × FaultKind))) (db : Db) (mem : Mem)
+    (hw : db.wellFormed = true) : (h.foldl step (db, mem)).1.wellFormed = true := by
+  induction h generalizing db mem with
+  | nil => exact hw
+  | cons c h ih =>
+    rw [List.foldl_cons]
+    exact ih _ _ (wellFormed_preserved db mem c.1 c.2 hw)
+
+/-- in particular starting from the empty file -/
+theorem history_wellFormed_from_empty (h : List (Op × Option (Nat × FaultKind))) (mem : Mem) :
+    (h.foldl step (Db.empty, mem)).1.wellFormed = true :=
+  history_wellFormed h _ _ empty_wellFormed
+
+/-- the committed file after a history does not depend on the initial process-global lists -/
+theorem history_db_independent_of_mem (h : List (Op × Option (Nat × FaultKind))) (db : Db) (mem₁ mem₂ : Mem) :
+    (h.foldl step (db, mem₁)).1 = (h.foldl step (db, mem₂)).1 := by
+  induction h generalizing db mem₁ mem₂ with
+  | nil => rfl
+  | cons c h ih =>
+    rw [List.foldl_cons, List.foldl_cons]
+    unfold step
+    simp only
+    rw [(outcome_depends_only_on_file db mem₁ mem₂ c.1 c.2).1]
+    exact ih _ _ _
 
 end PgVerif.C08
